@@ -234,11 +234,18 @@ void c05_init()
   TO_F32 = { resolve("cast_f32"), resolve("f2a_f32"), resolve("f2fp_f32") };
   TO_F64 = { resolve("cast_f64"), resolve("f2a_f64"), resolve("f2fp_f64") };
   RT_F64 = resolve("rt_f64"); RT_F32 = resolve("rt_f32");
+  reassign_setup();
   }
 extern Property P_C05;
 void c05_run(Ctx & c)
   {
   const Check & F32 = P_C05.checks[0], & F64 = P_C05.checks[1], & TOF = P_C05.checks[2], & RT = P_C05.checks[3];
+  { const Check & RA = P_C05.checks[4]; const auto & LL = lattice(); uint64_t ridx = 0;
+    for(int64_t k = 11; k <= 12; ++k)   // static_cast<double>(x) / static_cast<float>(x) twice with x modified in between
+      {
+      for(int64_t a : LL) if(c.mine(ridx++)) c.run_check(RA, a, 0, k);
+      uint64_t m = c.share(c.n(20000, 2000000)); for(uint64_t i = 0; i < m; ++i) c.run_check(RA, c.rng.logu(), 0, k);
+      } }
   // float: bit patterns. thorough: all 2^32; quick: every exponent x boundary mantissas + stride
   if(c.thorough)
     for(uint64_t b = (uint64_t)c.shard; b < (1ull << 32); b += (uint64_t)c.nshards) c.run_check(F32, (int64_t)b);
@@ -307,7 +314,8 @@ Property P_C05 = { "C05", c05_init, c05_run,
   { { "from_f32", j_from_f32, "fixed_t{float}, arithmetic_to_fixed, make_fixed, floating_point_to_fixed; a = IEEE bit pattern" },
     { "from_f64", j_from_f64, "same for double plus the _fix floating literal; a = IEEE bit pattern" },
     { "to_float", j_to_float, "static_cast<double/float>, fixed_to_arithmetic, fixed_to_floating_point; a = finite raw" },
-    { "roundtrip_f64", j_roundtrip_f64, "fixed -> double -> fixed for |raw| < 2^47" } },
+    { "roundtrip_f64", j_roundtrip_f64, "fixed -> double -> fixed for |raw| < 2^47" },
+    { "reassign", judge_reassign, "static_cast<double>(x) / static_cast<float>(x) twice in one function with x modified in between; c = shape 11..12" } },
   { "float-nan", "float-inf", "float-too-large", "float-in-range", "float-two-admissible", "float-halfway", "to-double-exact-domain", "to-double-beyond-2^53", "to-float-rounds", "roundtrip-[2^31-1,2^31)", "roundtrip-below-2^31-1" },
   "input expected NaN, |v| within 650 of 2^31-1, |v| < 1e-4, or the scaling step admits two results; fixed->float with |raw| > 2^52 or a float tie pattern; round trip with |x| near 2^31-1; distinct by bit pattern",
   { "every float exponent x 12 boundary mantissas", "every double exponent x 11 boundary mantissas" }, { "all 2^32 float bit patterns", "every double exponent x 11 boundary mantissas" } };
@@ -486,7 +494,7 @@ Property P_C16 = { "C16", c16_init, c16_run,
 Registrar R_C16(&P_C16);
 
 // ============================================================================================ C17
-Fn A_ADD, A_SUB, A_MUL, A_DIV, A_NEG, A_ADDSUB, A_SUBADD, A_MULI[N_INT], A_DIVI[N_INT];
+Fn A_ADD, A_SUB, A_MUL, A_DIV, A_NEG, A_ADDSUB, A_SUBADD, A_MULI[N_INT], A_DIVI[N_INT], A_IMUL[N_INT], A_ACCUM;
 #define CALL1(var, fn, x, y) CallRes var = c.call(fn.f[ci], x, y); if(var.sig) { c.signal_event((int)ci, fn.entry.c_str(), x, y, var.sig); continue; }
 void j_comm(Ctx & c, int64_t a, int64_t b, int64_t)
   {
@@ -570,7 +578,13 @@ void j_scalar_laws(Ctx & c, int64_t a, int64_t nraw, int64_t ti)
       int64_t s = 0; bool nan = false, sig = false;
       for(i128 i = 0; i < n && !nan; ++i) { CallRes r = c.call(A_ADD.f[ci], s, a); if(r.sig) { c.signal_event((int)ci, "add_ff", s, a, r.sig); sig = true; break; } s = r.v; nan = model_isnan(s); }
       if(!nan && !sig && s != p.v) c.violation(std::string("mul_") + t.tag + "/differs-from-repeated-addition", (int)ci, a, nraw, ti, i2s(p.v), i2s(s));
+      // the same sum accumulated with += in a counted loop (statement form, result of += unused)
+      if(!nan && !sig && n >= 1 && n <= 64) { CallRes acc = c.call(A_ACCUM.f[ci], a, (int64_t)n - 1); /* add_accum(a, k) = a followed by k times (+= a) */ if(!acc.sig && !model_isnan(acc.v) && acc.v != s) c.violation("add_accum/differs-from-repeated-addition", (int)ci, a, nraw, ti, i2s(acc.v), i2s(s)); }
       }
+    { // n*a, integer on the left, is the same product
+      CallRes pl = c.call(A_IMUL[ti].f[ci], a, nraw);
+      if(!pl.sig && pl.v != p.v && !(model_isnan(pl.v) && model_isnan(p.v))) c.violation(std::string("mul_") + t.tag + "/n*a-differs-from-a*n", (int)ci, a, nraw, ti, i2s(pl.v), i2s(p.v));
+    }
     }
   }
 // random operation sequence against an exact shadow; a = program seed, b = length
@@ -624,7 +638,8 @@ void c17_init()
   {
   A_ADD = resolve("add_ff"); A_SUB = resolve("sub_ff"); A_MUL = resolve("mul_ff"); A_DIV = resolve("div_ff"); A_NEG = resolve("neg");
   A_ADDSUB = resolve("add_sub_back"); A_SUBADD = resolve("sub_add_back");
-  for(int i = 0; i < N_INT; ++i) { std::string t = INT_TYPES[i].tag; A_MULI[i] = resolve(("mul_f" + t).c_str()); A_DIVI[i] = resolve(("div_f" + t).c_str()); }
+  for(int i = 0; i < N_INT; ++i) { std::string t = INT_TYPES[i].tag; A_MULI[i] = resolve(("mul_f" + t).c_str()); A_DIVI[i] = resolve(("div_f" + t).c_str()); A_IMUL[i] = resolve(("mul_" + t + "f").c_str()); }
+  A_ACCUM = resolve("add_accum");
   }
 extern Property P_C17;
 void c17_run(Ctx & c)
